@@ -103,9 +103,26 @@ def sc(v):
     return np.array(v, dtype=object).reshape(())
 
 
-def da_encs(chk, tag=""):
+def da_encs(chk, tag="", static=None):
+    """static = (target, gamma, kappa, t0): the constants are plain Python numbers closed over by the traced function (the way the kernels call
+    da_step) instead of symbolic arguments"""
     R = {n: z3.Real(n + tag) for n in ("ss", "es", "la", "mu", "acc", "target", "gamma", "kappa")}
     T = {n: z3.Int(n + tag) for n in ("t", "t0")}
+    if static is not None:
+        tg, ga, ka, t0v = static
+        from fractions import Fraction
+        f32 = lambda v_: z3.RealVal(str(Fraction(float(np.float32(v_)))))       # the exact binary value the traced float32 constant has
+        R.update(target=f32(tg), gamma=f32(ga), kappa=f32(ka))
+        T["t0"] = z3.IntVal(int(t0v))
+        order = ("ss", "es", "la", "mu", "acc", "t")
+        sym = tuple(sc((R | T)[n]) for n in order)
+        ex = (1.0, 0.0, 0.0, 0.0, 0.5, 3)
+        dom = {"ss" + tag: (0.05, 3), "acc" + tag: (0, 1), "t" + tag: (0, 50)}
+        encs = {}
+        for w in ("step", "init", "finalize"):
+            base = da_fn(w)
+            encs[w] = chk.note_enc(Enc(f"da_{w}{tag}", lambda ss, es, la, mu, acc, t, base=base: base(ss, es, la, mu, acc, t, float(tg), float(ga), float(ka), int(t0v)), ex, sym, domain=dom))
+        return encs, R, T
     order = ("ss", "es", "la", "mu", "acc", "t", "target", "gamma", "kappa", "t0")
     sym = tuple(sc((R | T)[n]) for n in order)
     ex = (1.0, 0.0, 0.0, 0.0, 0.5, 3, 0.8, 0.05, 0.75, 10)
@@ -223,7 +240,12 @@ def main():
     chk = Check("C11")
     obs = []
     # ------------------------------------------------------------ da.py itself
-    encs, R, T = da_encs(chk)
+    try:
+        encs, R, T = da_encs(chk)
+    except Exception as ex_:      # da_step could not be traced with its constants as arguments (e.g. it branches on them): constants as Python numbers
+        chk.extra.setdefault("notes", []).append(f"da_step not traceable with symbolic constants ({type(ex_).__name__}); static constants used")
+        encs, R, T = da_encs(chk, static=(0.8, 0.05, 0.75, 10))
+    encs0, R0, T0 = da_encs(chk, tag="_t0", static=(0.3, 0.07, 0.6, 0))        # the corner t0 = 0 (and non-default constants) as the kernels pass them
     chk.functions += ["liesel.goose.da.da_init", "liesel.goose.da.da_step", "liesel.goose.da.da_finalize"]
     pre = [R["gamma"] > 0, T["t"] >= 0, T["t0"] >= 0, R["ss"] > 0]
     ks_in = dict(step_size=R["ss"], error_sum=R["es"], log_avg_step_size=R["la"], mu=R["mu"])
@@ -232,6 +254,12 @@ def main():
         want = hg_recurrence(V, ks_in, R["acc"], T["t"], R["target"], R["gamma"], R["kappa"], T["t0"])
         return pre, z3.And(*[cells(V.out[f])[0] == want[f] for f in FIELDS])
     obs.append(Obligation("da_step = Hoffman-Gelman/Stan recurrence", [encs["step"]], step_goal, replay=replay_da_step))
+    ks_in0 = dict(step_size=R0["ss"], error_sum=R0["es"], log_avg_step_size=R0["la"], mu=R0["mu"])
+
+    def step_goal0(V):
+        want = hg_recurrence(V, ks_in0, R0["acc"], T0["t"], R0["target"], R0["gamma"], R0["kappa"], T0["t0"])
+        return [T0["t"] >= 0, R0["ss"] > 0], z3.And(*[cells(V.out[f])[0] == want[f] for f in FIELDS])
+    obs.append(Obligation("da_step with the constants (0.3, 0.07, 0.6, t0 = 0) passed as Python numbers = the recurrence with these constants", [encs0["step"]], step_goal0, signature="da_step:t0=0"))
 
     def init_goal(V):
         return pre, z3.And(cells(V.out["error_sum"])[0] == 0, cells(V.out["log_avg_step_size"])[0] == V.log(R["ss"]),
@@ -244,7 +272,10 @@ def main():
     obs.append(Obligation("da_finalize: eps = exp(log-average)", [encs["finalize"]], fin_goal))
 
     # monotonicity: same state, higher acceptance => next step size not smaller
-    encs_b, Rb, Tb = da_encs(chk, "_b")
+    try:
+        encs_b, Rb, Tb = da_encs(chk, "_b")
+    except Exception:
+        encs_b, Rb, Tb = da_encs(chk, "_b", static=(0.8, 0.05, 0.75, 10))
 
     def mono_goal(Vs):
         V1, V2 = Vs
